@@ -6,7 +6,7 @@
 (* Universe.  Terms 1..4 = T1, T1' (T1's name, another label), T1'' (T1's  *)
 (* label, another name), T2, without URI; terms 5..7 with a URI (equal URI *)
 (* and different name; equal name and different URI);                      *)
-(* values 1..5 = "a", "b", "c", "a ", " a"; universe tags 1..19 =          *)
+(* values 1..5 = "a", "b", "c", "a ", " a"; universe tags 1..21 =          *)
 (* UTag[u] = <<term, value>>.  Two tags are equal iff they are the same    *)
 (* universe tag (the binder builds them from this table, always as fresh   *)
 (* objects).  Python indices are 0-based: vocabulary position k <-> k - 1. *)
@@ -34,16 +34,22 @@ EXTENDS Lattice
 \* terms 5..7 carry a URI: T5 and T6 share the URI under different names, T7 has T5's name and label under another URI
 \* terms 8, 9 are T1 in every declared field plus an EXTRA attribute status = "draft" / "final" (Term allows extras and
 \* they count in equality): three different terms
-TermName  == <<"n1", "n1", "n2", "n3", "n4", "n5", "n4", "n1", "n1">>
-TermLabel == <<"l1", "l2", "l1", "l3", "l4", "l4", "l4", "l1", "l1">>
-TermUri   == <<"", "", "", "", "u1", "u1", "u2", "", "">>
-Declared  == <<1, 2, 3, 4, 5, 6, 7, 1, 1>>          \* the term one gets by looking at the declared fields only
+\* term 10 has EVERY optional Term field set, among them the two ALIASED ones away from their defaults (type_of_term,
+\* written "type", = "class"; term_range, written "range"); term 11 is term 10 with the default type_of_term
+TermName  == <<"n1", "n1", "n2", "n3", "n4", "n5", "n4", "n1", "n1", "n6", "n6">>
+TermLabel == <<"l1", "l2", "l1", "l3", "l4", "l4", "l4", "l1", "l1", "l6", "l6">>
+TermUri   == <<"", "", "", "", "u1", "u1", "u2", "", "", "u6", "u6">>
+Declared  == <<1, 2, 3, 4, 5, 6, 7, 1, 1, 10, 11>>  \* the term one gets by looking at the declared fields only
+\* what a dump that leaves out defaults, re-validated by field NAME, makes of a term: the aliased fields do not come back
+Redumped  == <<1, 2, 3, 4, 5, 6, 7, 8, 9, 0, 0>>    \* 0 = a term that is none of the universe (and not the original)
 UTag == << <<1, 1>>, <<1, 2>>, <<2, 1>>, <<3, 1>>, <<4, 1>>, <<4, 2>>,
            <<2, 2>>, <<3, 2>>, <<1, 3>>, <<2, 3>>, <<3, 3>>, <<4, 3>>,
            <<5, 1>>, <<6, 1>>, <<7, 1>>,            \* 13..15: tags on the URI-bearing terms
            <<1, 4>>, <<1, 5>>,                      \* 16, 17: T1 with the values "a " and " a" (value 1 = "a")
-           <<8, 1>>, <<9, 1>> >>                    \* 18, 19: value "a" on the terms with the extra attribute
+           <<8, 1>>, <<9, 1>>,                      \* 18, 19: value "a" on the terms with the extra attribute
+           <<10, 1>>, <<11, 1>> >>                  \* 20, 21: value "a" on the fully described terms
 UriTags == {1, 13, 14, 15}
+FullTags == {1, 20, 21}                             \* terms with every optional field set (aliased ones included)
 XTags   == {1, 2, 18, 19}                           \* same declared term fields, extra attribute absent / draft / final
 WsTags  == {1, 2, 16, 17}                           \* values that differ only by surrounding whitespace are different values
 StripVal == <<1, 2, 3, 1, 1>>                       \* what value.strip() would make of values 1..5
@@ -79,7 +85,7 @@ LawClassifyIsHit(v, ts) == Classify(v, ts) = <<>> \/ Multilabel(v, ts)[Classify(
 HasExtras(mode) == mode \in {"extras_ab", "extras_ba"}
 SameContent(m1, m2) == HasExtras(m1) = HasExtras(m2)        \* two ways of writing that leave equal objects equal
 
-EncClauses == {"EncodeIffEqual", "EncodeIffObservedEqual", "DecodeEncodeIdentity", "ClassifyFirstHit", "MultilabelIndicator",
+EncClauses == {"EncodeIffEqual", "EncodeIffObservedEqual", "DecodeEncodeIdentity", "DecodeIsVocabularyTag", "ClassifyFirstHit", "MultilabelIndicator",
                "PredictionScores", "OutOfVocabularyNoInfluence"}
 
 (***************************************************************************)
@@ -107,6 +113,8 @@ EncClauseHolds(cl, c, r) ==
                       IN  Cardinality(hits) <= 1 => r.enc[u] = (IF hits = {} THEN <<>> ELSE <<SetMin(hits) - 1>>)
       [] cl = "DecodeEncodeIdentity" -> /\ Len(r.dec) = Len(v) /\ Len(r.encdec) = Len(v)
                                         /\ \A k \in DOMAIN v : r.dec[k] = v[k] /\ r.encdec[k] = <<k - 1>>
+      \* decoding is the inverse on indices: decode(i) EQUALS (observed ==) the i-th vocabulary tag
+      [] cl = "DecodeIsVocabularyTag" -> Len(r.deq) = Len(v) /\ \A k \in DOMAIN v : r.deq[k]
       [] cl = "ClassifyFirstHit"     -> r.cls = Classify(v, ts)
       [] cl = "MultilabelIndicator"  -> r.multi = Multilabel(v, ts)
       [] cl = "PredictionScores"     -> Len(r.pred) = Len(c.scs) /\ \A s \in DOMAIN c.scs : PredOK(v, ts, c.scs[s], r.pred[s])
